@@ -306,3 +306,106 @@ Definition read_block (blk : bytes) : option report_numbers :=
             rn_count := Z.of_nat (count_prefix 94 (skipn nsp row)) |}
   | _ => None
   end.
+
+(* ================= reading the record views back ================= *)
+(* The decoding function of C20_records_faithful: what a consumer of the JSON document can recover from a
+   record object. [data_of] is the record without what JSON never shows: the spacing around the dash of a
+   range, the number of placeholder characters of an open range, and the sign notation of a duration
+   (explicit +, signed zero). *)
+
+Fixpoint jget (k : bytes) (l : list (bytes * json)) : option json :=
+  match l with
+  | [] => None
+  | (k', v) :: r => if bytes_eqb k k' then Some v else jget k r
+  end.
+Definition field (k : bytes) (v : json) : option json := match v with JObj l => jget k l | _ => None end.
+Definition str_field (k : bytes) (v : json) : option bytes := match field k v with Some (JStr s) => Some s | _ => None end.
+Definition num_field (k : bytes) (v : json) : option Z := match field k v with Some (JNum z) => Some z | _ => None end.
+Definition arr_field (k : bytes) (v : json) : option (list json) := match field k v with Some (JArr l) => Some l | _ => None end.
+
+Fixpoint all_some {A} (l : list (option A)) : option (list A) :=
+  match l with
+  | [] => Some []
+  | Some x :: r => match all_some r with Some xs => Some (x :: xs) | None => None end
+  | None :: _ => None
+  end.
+Definition string_of (v : json) : option bytes := match v with JStr s => Some s | _ => None end.
+Definition strings_of (l : list json) : option (list bytes) := all_some (map string_of l).
+
+Inductive value_data :=
+| DDuration (mins : Z)
+| DRange (start end_ : time)
+| DOpen (start : time).
+
+Record entry_data := { ed_value : value_data; ed_summary : list bytes; ed_tags : list bytes }.
+Record record_data := {
+  rd_date : date; rd_should : option Z; rd_summary : list bytes; rd_tags : list bytes; rd_entries : list entry_data }.
+
+(* the tags of a summary in the notation and order of the output (Summary.Tags() is [summary_tags]: Proofs/Tags.v) *)
+Definition tags_of (lines : list bytes) : list bytes := sorted_tag_strings (summary_tags go_is_letter go_to_lower lines).
+
+Definition value_data_of (v : evalue) : value_data :=
+  match v with
+  | VDuration d => DDuration (d_mins d)
+  | VRange r => DRange (r_start r) (r_end r)
+  | VOpen o => DOpen (o_start o)
+  end.
+Definition entry_data_of (e : entry) : entry_data :=
+  {| ed_value := value_data_of (e_value e); ed_summary := e_summary e; ed_tags := tags_of (e_summary e) |}.
+Definition data_of (r : record) : record_data :=
+  {| rd_date := rec_date r; rd_should := rec_should r; rd_summary := rec_summary r;
+     rd_tags := tags_of (rec_summary r); rd_entries := map entry_data_of (rec_entries r) |}.
+
+Definition time_of (s : bytes) : option time := match parse_time s with Ok t => Some t | _ => None end.
+Definition date_of (s : bytes) : option date := match parse_date s with Ok d => Some d | _ => None end.
+
+(* an entry summary always has a first line; a record summary may have none *)
+Definition entry_lines (s : bytes) : list bytes := split_on_byte 10 s.
+Definition record_lines (s : bytes) : list bytes := match s with [] => [] | _ => split_on_byte 10 s end.
+
+Definition time_field (k : bytes) (v : json) : option time :=
+  match str_field k v with Some s => time_of s | None => None end.
+
+Definition of_entry_view (v : json) : option entry_data :=
+  match str_field k_type v, str_field k_summary v, arr_field k_tags v, num_field k_total_mins v with
+  | Some ty, Some su, Some tg, Some mins =>
+    match strings_of tg with
+    | Some tags =>
+      let mk (val : value_data) := Some {| ed_value := val; ed_summary := entry_lines su; ed_tags := tags |} in
+      if bytes_eqb ty ty_duration then mk (DDuration mins)
+      else if bytes_eqb ty ty_open_range then
+        match time_field k_start v with Some t => mk (DOpen t) | None => None end
+      else if bytes_eqb ty ty_range then
+        match time_field k_start v, time_field k_end v with
+        | Some a, Some b => mk (DRange a b)
+        | _, _ => None
+        end
+      else None
+    | None => None
+    end
+  | _, _, _, _ => None
+  end.
+
+(* the should-total is set exactly when its text ends in the exclamation mark *)
+Definition should_of (text : bytes) (mins : Z) : option Z :=
+  if (last text 0%N =? ch_excl)%N then Some mins else None.
+
+Definition of_view (v : json) : option record_data :=
+  match str_field k_date v, str_field k_summary v, str_field k_should_total v, num_field k_should_total_mins v,
+        arr_field k_tags v, arr_field k_entries v with
+  | Some d, Some su, Some st, Some sm, Some tg, Some es =>
+    match date_of d, strings_of tg, all_some (map of_entry_view es) with
+    | Some date, Some tags, Some entries =>
+      Some {| rd_date := date; rd_should := should_of st sm; rd_summary := record_lines su;
+              rd_tags := tags; rd_entries := entries |}
+    | _, _, _ => None
+    end
+  | _, _, _, _, _, _ => None
+  end.
+
+(* the whole document: the record data, in order; None when the document reports errors *)
+Definition of_document (v : json) : option (list record_data) :=
+  match arr_field k_records v with
+  | Some l => all_some (map of_view l)
+  | None => None
+  end.
